@@ -240,3 +240,53 @@ def creation_attributes(unit, init_callee, attr_prefix, allowed):
                     bad = bad or c2
             out.append((f, c, bad))
     return out
+
+
+def table_item(fn, unit, rhs, tparam, tval):
+    """Table-driven dispatch: for `obj->slot = row->field` / `= table[index].field` where `row = &table[index]` and `index` is the
+    dispatch parameter (plus or minus constants), the initialiser item of that field in the row selected by parameter value `tval`;
+    None when `rhs` is not of that form."""
+    def index_of(e):
+        e = strip_casts(e)
+        if e is None:
+            return None
+        if cv(e) is not None:
+            return cv(e)
+        if e["k"] == "ref":
+            if e["name"] == tparam:
+                return tval
+            r_ = fn.resolve(e)
+            return index_of(r_) if r_ is not e else None
+        if e["k"] == "bin" and e["op"] in ("+", "-"):
+            a, b_ = index_of(e["l"]), index_of(e["r"])
+            return None if a is None or b_ is None else (a + b_ if e["op"] == "+" else a - b_)
+        return None
+
+    def row_of(e):
+        e = strip_casts(e)
+        if e is None:
+            return None
+        if e["k"] == "un" and e.get("op") == "&":
+            return row_of(e["e"])
+        if e["k"] == "ref" and e.get("decl") == "local":
+            r_ = fn.resolve(e)
+            return row_of(r_) if r_ is not e else None
+        if e["k"] == "idx":
+            g = strip_casts(e["base"])
+            gl = unit.globals.get(g["name"]) if g is not None and g["k"] == "ref" else None
+            ix = index_of(e["i"])
+            items = (gl.get("init") or {}).get("items") if gl else None
+            if items is not None and ix is not None and 0 <= ix < len(items):
+                return items[ix]
+        return None
+    r = strip_casts(rhs)
+    if r is None or r["k"] != "member":
+        return None
+    row = row_of(r["base"])
+    rec = unit.records.get(r.get("rec"))
+    if row is None or rec is None or not row.get("items"):
+        return None
+    names_ = [f_["name"] for f_ in rec.fields]
+    if r["field"] not in names_ or names_.index(r["field"]) >= len(row["items"]):
+        return None
+    return row["items"][names_.index(r["field"])]
